@@ -746,7 +746,8 @@ class PixelAlgorithms(AccessorBase):
             output_core_dims=[["time"]],
             keep_attrs=True,
             dask="parallelized",
-            dask_gufunc_kwargs={"meta": self._obj.data},
+            # the kernel returns float32 whatever the input dtype: declare it for dask as well
+            dask_gufunc_kwargs={"meta": self._obj.data.astype("float32")},
         )
 
 
